@@ -619,7 +619,11 @@ func (r *Resolver) groupLookup(ctx context.Context, rs *resolveState, req *dns.M
 		})
 
 		if lookupErr != nil {
-			if shared && !leader && middleware.IsRequestLocalResolutionError(lookupErr) {
+			// A shed leader means the resolver is saturated: its followers
+			// take the same answer instead of re-electing one by one into
+			// the very capacity limit that shed it.
+			if shared && !leader && middleware.IsRequestLocalResolutionError(lookupErr) &&
+				!errors.Is(lookupErr, middleware.ErrResolutionCapacity) {
 				if ctxErr := contextutil.EffectiveError(ctx); ctxErr != nil {
 					return nil, ctxErr
 				}
